@@ -139,3 +139,8 @@ package bep44
 //@   modifies m.m
 //@   ensures removed: !(t in m.m)
 //@   ensures others-untouched: forall u [20]byte :: u != t ==> m.m[u] == old(m.m[u]) && (u in m.m) == old(u in m.m)
+
+//@ func dht/bep44.NewMemory
+//@   ensures an-empty-store: result != nil && result.m != nil && (forall t [20]byte :: !(t in result.m))
+//@ func dht/bep44.NewWrapper
+//@   ensures wraps-the-store: result != nil && result.s == s && result.exp == exp && !held(result.mu)
